@@ -2,6 +2,10 @@ import PeliteModel.Driver.Pure
 import PeliteModel.Driver.Image
 import PeliteModel.Driver.Typed
 import PeliteModel.Driver.Convert
+import PeliteModel.Driver.Rich
+import PeliteModel.Driver.Pattern
+import PeliteModel.Driver.Version
+import PeliteModel.Driver.Scan
 -- IMPORT-MARKER (add `import PeliteModel.Driver.<M>` above this line)
 /-! `model`: the line-protocol driver.  One answer line per operation line; the part after ` ## `
 is the executable specification's answer and whether the input meets the theorem's hypotheses. -/
@@ -12,6 +16,10 @@ def handlers : List Handler := [
   dispatchImage
   , dispatchTyped
   , dispatchConvert
+  , dispatchRich
+  , dispatchPattern
+  , dispatchVersion
+  , dispatchScan
   -- HANDLER-MARKER (add `, dispatch<M>` above this line)
   ]
 
